@@ -1,4 +1,4 @@
-import LeptosModel.Proofs.StreamOooRun
+import LeptosModel.Proofs.StreamPartial
 /-!
 # C07 — streamed HTML equals the fully resolved render for any completion order
 
@@ -18,7 +18,8 @@ Status (after the repairs fix-c07-2 … fix-c07-5 in /repo; the pre-repair code 
   now also across `ErrorBoundary` sub-builders).
 * out-of-order streaming: **proved** for every `OooWf` program with clean strings and every schedule
   (`C07_out_of_order`, `C07_out_of_order_total`, `C07_out_of_order_views`), and at every moment of the stream
-  (`C07_fallback_until_ready_doc`); `C07_fallback_until_ready_stmt` (a static reformulation of the latter) stays OPEN.
+  (`C07_fallback_until_ready_doc`, and in static form `C07_fallback_until_ready_static`: the client's document,
+  marker comments ignored, is a `PartialDoc` of the program over the futures completed so far).  Nothing is OPEN.
 * repaired findings, regression witnesses: `C07_eb_inorder_witness` (F-C07-2), `C07_eb_ooo_witness` (F-C07-3),
   `C07_nested_suspend_witness` (F-C07-4), `C07_none_inline_witness` (F-C07-5);
   API-misuse only: `C07_api_misuse_witness` (F-C07-1, not reachable from views: `C07_views_wellformed` gives
@@ -158,7 +159,7 @@ theorem C07_out_of_order (prog : List Op) (hw : OooWf prog) (hc : cleanOps prog 
     (∀ o ∈ ((startStream true done0 prog).polls sched).out, o ≠ Poll.panic ∧ o ≠ Poll.stuck) ∧
     (((startStream true done0 prog).polls sched).out.getLast? = some Poll.done →
       applyScripts (itemsOf ((startStream true done0 prog).polls sched).out) = oooDocOps prog) := by
-  have h := ORun_polls (oooDocOps prog) sched _ (ORun_start prog hw hc done0)
+  have h := ORun_polls finalSem prog sched _ (ORun_start finalSem prog hw hc done0)
   refine ⟨h.clean, fun hl => ?_⟩
   obtain ⟨h1, h2, h3⟩ := h.fin hl
   exact ORel_done h.rel h1 h2 h3
@@ -170,7 +171,7 @@ theorem C07_out_of_order_total (prog : List Op) (hw : OooWf prog) (hc : cleanOps
     ∃ k, (((startStream true done0 prog).polls sched).drain k).out.getLast? = some Poll.done ∧
       applyScripts (itemsOf (((startStream true done0 prog).polls sched).drain k).out) = oooDocOps prog := by
   obtain ⟨k, _, hk⟩ := C07_terminates true prog done0 sched hall
-  have h := ORun_drain (oooDocOps prog) k _ (ORun_polls (oooDocOps prog) sched _ (ORun_start prog hw hc done0))
+  have h := ORun_drain finalSem prog k _ (ORun_polls finalSem prog sched _ (ORun_start finalSem prog hw hc done0))
   have hd : (((startStream true done0 prog).polls sched).drain k).out.getLast? = some Poll.done := by
     rcases hk with hk | hk
     · exact hk
@@ -195,64 +196,72 @@ theorem C07_out_of_order_views (v : View) (hc : cleanView v = true) (hok : oooVi
     * the holes (`Seg.hole I fb` = marker-wrapped fallback `fb`) are **exactly** the out-of-order futures that are
       still in the builder's queues — i.e. not yet resolved, and `pollStep` resolves a future only under `Fut.ready`
       (`C07_fallback_until_ready`) — each once;
-    * everything else is final: replacing every hole by the resolved document of its future (`Knows σ`, `fill σ`)
-      gives the resolved document of the program.
+    * everything else is final: replacing every hole by the resolved document of its future (`Adm finalSem`) gives
+      the resolved document of the program.
     So a fallback is shown precisely as long as its future is unresolved, and it disappears only in exchange for its
     content. -/
 theorem C07_fallback_until_ready_doc (prog : List Op) (hw : OooWf prog) (hc : cleanOps prog = true)
     (done0 : List FId) (sched : List (List FId)) :
-    ∃ (D tail : List Seg) (cs : List PendOoo) (σ : List Nat → Option Str),
+    ∃ (D tail : List Seg) (cs : List PendOoo),
       applyScripts (itemsOf ((startStream true done0 prog).polls sched).out
         ++ ((startStream true done0 prog).polls sched).b.syncBuf) = segsStr D ∧
       ((startStream true done0 prog).polls sched).b.chunks = cs.map Chunk.ooo ++ tailChunk (segsStr tail) ∧
       (∀ I, I ∈ holeIds (D ++ tail) ↔ ∃ p ∈ cs ++ ((startStream true done0 prog).polls sched).b.pendingOoo, p.id = some I) ∧
       (holeIds (D ++ tail)).Nodup ∧
-      Knows σ (cs ++ ((startStream true done0 prog).polls sched).b.pendingOoo) ∧
-      fill σ (D ++ tail) = oooDocOps prog := by
-  have h := ORun_polls (oooDocOps prog) sched _ (ORun_start prog hw hc done0)
-  obtain ⟨ys, bs, tail, cs, σ, hi⟩ := h.rel
-  refine ⟨clientS [] (ys ++ bs), tail, cs, σ, ?_, hi.hC, hi.mem, ?_, hi.knows, hi.doc⟩
+      (∀ σ, Adm finalSem (done0 ++ sched.flatten) σ (D ++ tail) (cs ++ ((startStream true done0 prog).polls sched).b.pendingOoo) →
+        fill σ (D ++ tail) = oooDocOps prog) := by
+  have h := ORun_polls finalSem prog sched _ (ORun_start finalSem prog hw hc done0)
+  obtain ⟨ys, bs, tail, cs, hi⟩ := h.rel
+  refine ⟨clientS [] (ys ++ bs), tail, cs, ?_, hi.hC, hi.mem, ?_, ?_⟩
   · rw [hi.hY, hi.hB, ← itemsStr_append]
     exact applyScripts_items _ hi.okI (List.Nodup.sublist (List.sublist_append_left _ _) hi.ndText) hi.ndTpl
   · rw [holeIds_append]
     exact nodup_clientS _ _ _ (by simpa [holeIds] using hi.ndText)
+  · intro σ hσ
+    have hd : ((startStream true done0 prog).polls sched).done = done0 ++ sched.flatten := by
+      rw [polls_done]; rfl
+    exact hi.sem _ (by rw [hd]; exact fun x hx => hx) σ hσ
 
-/-- remove every marker comment `<!--s-…-->` (fuel: one per `<`) -/
-def stripMarkersAux : Nat → Str → Str
-  | 0, s => s
-  | fuel + 1, s =>
-    match splitFirst "<!--s-".toList s with
-    | none => s
-    | some (a, rest) =>
-      match splitFirst "-->".toList rest with
-      | none => s
-      | some (_, rest') => a ++ stripMarkersAux fuel rest'
-def stripMarkers (s : Str) : Str := stripMarkersAux s.length s
-
-/-- the document in which exactly the out-of-order futures in `shown` have been replaced by their content and
-    the others still show their fallback -/
-def partialDocOps (shown : Fut → Bool) : List Op → Str
-  | [] => []
-  | .fallback s :: .ooo fut _ body _ :: os =>
-    (if shown fut then partialDocOps shown body else s) ++ partialDocOps shown os
-  | .sync s :: os => s ++ partialDocOps shown os
-  | .ite fut t e :: os =>
-    (if shown fut then partialDocOps shown t else partialDocOps shown e) ++ partialDocOps shown os
-  | _ :: os => partialDocOps shown os
-
-/-- OPEN (not proved) — a *static* reformulation of `C07_fallback_until_ready_doc` (which is proved and speaks about the
-    run-time futures instead of program positions): what the client shows, marker comments ignored, is the program's
-    document in which some set `shown` of completed out-of-order futures has been replaced by content and every other
-    one still shows its fallback.  Stated for programs whose futures are pairwise distinct and after at least one
-    poll. -/
-def C07_fallback_until_ready_stmt : Prop :=
-  ∀ (prog : List Op), OooWf prog → cleanOps prog = true → (futsOps prog).Nodup →
-    ∀ (done0 : List FId) (sched : List (List FId)), sched ≠ [] →
-      ∃ shown : Fut → Bool,
-        (∀ fut, shown fut = true → ∀ d ∈ fut.deps, d ∈ done0 ++ sched.flatten) ∧
-        stripMarkers (applyScripts (itemsOf ((startStream true done0 prog).polls sched).out
-            ++ ((startStream true done0 prog).polls sched).b.syncBuf))
-          = partialDocOps shown prog
+/-- **C07_fallback_until_ready_static** (the static form).  At every moment of every schedule, what the client shows —
+    scripts applied to everything yielded so far plus the unflushed buffer, followed by the text still queued before
+    the first poll, marker comments ignored — is a `PartialDoc` of the program over the futures completed so far: the
+    program's document in which every out-of-order future shows **either its fallback or**, only if everything it
+    waits for has completed, **a partial document of its content** (recursively), and every `now_or_never` branch is
+    one of its two readings (the ready one only for a completed future).  Content never appears before its future has
+    completed; a fallback is only ever exchanged for its content. -/
+theorem C07_fallback_until_ready_static (prog : List Op) (hw : OooWf prog) (hc : cleanOps prog = true)
+    (done0 : List FId) (sched : List (List FId)) :
+    ∃ (tail : List Seg) (cs : List PendOoo),
+      ((startStream true done0 prog).polls sched).b.chunks = cs.map Chunk.ooo ++ tailChunk (segsStr tail) ∧
+      PartialDoc (done0 ++ sched.flatten) prog
+        (stripMarkers (applyScripts (itemsOf ((startStream true done0 prog).polls sched).out
+          ++ ((startStream true done0 prog).polls sched).b.syncBuf) ++ segsStr tail)) := by
+  have h := ORun_polls partialSem prog sched _ (ORun_start partialSem prog hw hc done0)
+  obtain ⟨ys, bs, tail, cs, hi⟩ := h.rel
+  refine ⟨tail, cs, hi.hC, ?_⟩
+  have hd : ((startStream true done0 prog).polls sched).done = done0 ++ sched.flatten := by
+    rw [polls_done]; rfl
+  have happ : applyScripts (itemsOf ((startStream true done0 prog).polls sched).out
+      ++ ((startStream true done0 prog).polls sched).b.syncBuf) = segsStr (clientS [] (ys ++ bs)) := by
+    rw [hi.hY, hi.hB, ← itemsStr_append]
+    exact applyScripts_items _ hi.okI (List.Nodup.sublist (List.sublist_append_left _ _) hi.ndText) hi.ndTpl
+  have hnd : (holeIds (clientS [] (ys ++ bs) ++ tail)).Nodup := by
+    rw [holeIds_append]
+    exact nodup_clientS _ _ _ (by simpa [holeIds] using hi.ndText)
+  have hokD : ∀ g ∈ clientS [] (ys ++ bs) ++ tail, g.ok := by
+    intro g hg
+    rcases List.mem_append.1 hg with hg | hg
+    · exact clientS_ok _ hi.okI [] (by simp) g hg
+    · exact hi.okT g hg
+  -- every hole shows its own fallback
+  have hadm : Adm partialSem (done0 ++ sched.flatten) (holeFb (clientS [] (ys ++ bs) ++ tail))
+      (clientS [] (ys ++ bs) ++ tail) (cs ++ ((startStream true done0 prog).polls sched).b.pendingOoo) := by
+    intro I fb hg p _ _
+    exact ⟨fb, holeFb_mem hnd hg, Or.inl rfl⟩
+  have hP := hi.sem _ (by rw [hd]; exact fun x hx => hx) _ hadm
+  rw [fill_holeFb _ _ (fun I fb hg => holeFb_mem hnd hg)] at hP
+  rw [happ, ← segsStr_append, stripMarkers_segs _ hokD]
+  exact hP
 
 /-- **C07_fallback_until_ready** at the level of one `poll_next` call (proved; all programs, both modes): a poll that
     finds the future at the head of its queue not ready does not touch the text that has been pushed — an in-order
